@@ -10,7 +10,17 @@ case kinds
       several patterns + the global generator driven by one schedule; WOP = ["p", id, OP] | ["gunit"] | ["gbelow", n] | ["gseed", s]
   {"kind": "freq", "spec": SPEC, "seed": s, "n": N}   -> histogram of N outputs (JSON-encoded values as keys)
   {"kind": "util", "fn": name, "weights": [...], "values": [...]|None, "us": [u...]}  -> results with rng.uniform stubbed to return u
-OP = "next" | "reset" | ["seed", s]
+  {"kind": "family", "spec": SPEC, "wrap": null | ["add", k] | ["stutter", n], "seed": s, "record": bool,
+   "sched": [["p", id, OP] | ["copy", src, dst] | ["gunit"] | ["gbelow", n] | ["gseed", s]...], "solo": {id: [OP...]}}
+      an original (member 0, possibly nested inside a deterministic wrapper) and copies taken with Pattern.copy(),
+      driven side by side; returns the events of every member, the recorded draws of every member's generator
+      (record: the stochastic pattern's rng is a recording random.Random, which copy.deepcopy duplicates together
+      with the log of its current epoch) and, per member, the events of a FRESH instance driven alone by "solo"[id]
+  a script may carry "seedv": SEEDV instead of "seed" and ["seedv", SEEDV] operations: seed values of every kind
+  random.seed accepts; "refsv": [[SEEDV, key]...] asks for reference runs of fresh instances seeded with the value
+  and with the int `key`
+SEEDV = {"k": "int"|"bool"|"str", "v": value} | {"k": "float", "v": [num, den]} | {"k": "bytes"|"bytearray", "v": [byte...]}
+OP = "next" | "reset" | ["seed", s] | ["seedv", SEEDV]
 Values are encoded {"i": int} | {"f": float} | null | {"l": [...]} | {"o": typename}; outcomes "stop" | {"x": ExceptionName}."""
 import sys, json, random, hashlib
 import isobar as iso
@@ -33,6 +43,12 @@ class Rec(random.Random):
             self.log = []
             self.epochs.append(self.log)
 
+    def __reduce__(self):
+        # copy.deepcopy / pickle: random.Random reduces to (class, (), getstate()) and would drop the log; a copy
+        # of a recording generator is a recording generator in the same state whose current epoch has the same
+        # log so far (earlier epochs are not the copy's)
+        return (_rebuild_rec, (self.__class__, self.getstate(), [list(x) for x in self.log]))
+
     def random(self):
         r = super().random()
         self.log.append([0, int(r * TWO53)])
@@ -42,6 +58,14 @@ class Rec(random.Random):
         r = super()._randbelow(n)
         self.log.append([n, r])
         return r
+
+
+def _rebuild_rec(cls, state, log):
+    r = cls()
+    r.setstate(state)
+    r.log = log
+    r.epochs = [r.log]
+    return r
 
 
 class Forced(Rec):
@@ -141,6 +165,19 @@ def build(spec):
     raise ValueError("unknown class " + c)
 
 
+def decode_seed(j):
+    k, v = j["k"], j["v"]
+    if k == "float":
+        return v[0] / v[1]
+    if k == "bytes":
+        return bytes(v)
+    if k == "bytearray":
+        return bytearray(v)
+    if k == "bool":
+        return bool(v)
+    return v
+
+
 def do(p, op):
     """returns None for reset/seed, else the encoded outcome of next()"""
     if op == "next":
@@ -153,7 +190,7 @@ def do(p, op):
     if op == "reset":
         p.reset()
         return None
-    p.seed(op[1])
+    p.seed(decode_seed(op[1]) if op[0] == "seedv" else op[1])
     return None
 
 
@@ -177,7 +214,8 @@ def case_script(c):
     p = build(c["spec"])
     rec = Rec() if forced is None else Forced(forced)
     p.rng = rec
-    p.seed(c["seed"])
+    seed0 = decode_seed(c["seedv"]) if "seedv" in c else c["seed"]
+    p.seed(seed0)
     rec.epochs[:] = [rec.log]
     out["events"] = run_ops(p, c["ops"])
     out["epochs"] = rec.epochs
@@ -185,7 +223,7 @@ def case_script(c):
     q = build(c["spec"])
     if forced is not None:
         q.rng = Forced(forced)
-    q.seed(c["seed"])
+    q.seed(decode_seed(c["seedv"]) if "seedv" in c else c["seed"])
     out["plain"] = run_ops(q, c["ops"])
     refs = {}
     for s in c.get("refs", {}).get("seeds", []):
@@ -195,8 +233,87 @@ def case_script(c):
         f.seed(s)
         refs[str(s)] = run_ops(f, ["next"] * c["refs"]["n"])
     out["refs"] = refs
+    if "refsv" in c:
+        rv = []
+        for sv, key in c["refsv"]:
+            f = build(c["spec"])
+            f.seed(decode_seed(sv))
+            a = run_ops(f, ["next"] * c["refs"]["n"])
+            f = build(c["spec"])
+            f.seed(key)
+            rv.append([a, run_ops(f, ["next"] * c["refs"]["n"])])
+        out["refsv"] = rv
     out["global_touched_total"] = gstate() != g0
     return out
+
+
+def wrap(inner, w):
+    if not w:
+        return inner
+    if w[0] == "add":
+        return inner + w[1]
+    if w[0] == "stutter":
+        return iso.PStutter(inner, w[1])
+    raise ValueError(w)
+
+
+def inner_of(top, w):
+    """the stochastic pattern nested inside member `top` (public attributes of the wrapper classes)"""
+    if not w:
+        return top
+    return top.a if w[0] == "add" else top.pattern
+
+
+def case_family(c):
+    w = c.get("wrap")
+    inner = build(c["spec"])
+    if c.get("record"):
+        rec = Rec()
+        inner.rng = rec
+    inner.seed(c["seed"])
+    if c.get("record"):
+        rec.epochs[:] = [rec.log]
+    members = {0: wrap(inner, w)}
+    outs = {0: []}
+    touched = []
+    for k, op in enumerate(c["sched"]):
+        if op[0] == "p":
+            g0 = random.getstate()
+            m = members[op[1]]
+            o = op[2]
+            r = do(m if o in ("next", "reset") else inner_of(m, w), o)
+            if random.getstate() != g0:
+                touched.append(k)
+            if o == "next":
+                outs[op[1]].append(r)
+        elif op[0] == "copy":
+            g0 = random.getstate()
+            members[op[2]] = members[op[1]].copy()
+            outs[op[2]] = []
+            if random.getstate() != g0:
+                touched.append(k)
+        elif op[0] == "gunit":
+            random.random()
+        elif op[0] == "gbelow":
+            random.randrange(op[1])
+        elif op[0] == "gseed":
+            random.seed(op[1])
+    res = {"outs": {str(i): o for i, o in outs.items()}, "touched": touched}
+    if c.get("record"):
+        res["epochs"] = {str(i): getattr(inner_of(m, w).rng, "epochs", None) for i, m in members.items()}
+    solo = {}
+    for i, ops in c.get("solo", {}).items():
+        f_inner = build(c["spec"])
+        f_inner.seed(c["seed"])
+        f = wrap(f_inner, w)
+        ev = []
+        for o in ops:
+            r = do(f if o in ("next", "reset") else f_inner, o)
+            if o == "next":
+                ev.append(r)
+        solo[i] = ev
+    res["solo"] = solo
+    return res
 
 
 def case_world(c):
@@ -278,7 +395,8 @@ def main():
     for c in req["cases"]:
         gs = random.getstate()
         try:
-            r = {"script": case_script, "world": case_world, "freq": case_freq, "util": case_util}[c["kind"]](c)
+            r = {"script": case_script, "world": case_world, "freq": case_freq, "util": case_util,
+                 "family": case_family}[c["kind"]](c)
         except Exception as e:
             r = {"driver_exception": type(e).__name__, "detail": str(e)[:300]}
         random.setstate(gs)
